@@ -75,3 +75,29 @@ Theorem orphans_dropped vids edges cells :
 Proof. split.
   - intros v. unfold kept_vertices. apply filter_In.
   - intros k v1 v2. unfold kept_edges. rewrite filter_In. simpl. rewrite andb_true_iff. tauto. Qed.
+
+(* ------------------------------------------------------------------ the vertex cycle follows the signed edge loop *)
+Lemma tail_head_ends edges e (He : e <> 0%Z) k v1 v2 : find (fun kv => Z.eqb (fst kv) (Z.abs e)) edges = Some (k, (v1, v2)) ->
+  (tail_vertex edges e = Some v1 /\ head_vertex edges e = Some v2) \/ (tail_vertex edges e = Some v2 /\ head_vertex edges e = Some v1).
+Proof. intros H. unfold head_vertex, tail_vertex. rewrite Z.abs_opp, H. destruct (Z.ltb_spec 0 e).
+  - left. split; [reflexivity|]. destruct (Z.ltb_spec 0 (- e)); [lia|reflexivity].
+  - right. split; [reflexivity|]. destruct (Z.ltb_spec 0 (- e)); [reflexivity|lia]. Qed.
+
+(* in a face whose signed edges are chained head to tail, the i-th and (i+1)-th vertex of the cycle (cyclically) are the two ends of the
+   i-th edge of the loop: every step of the vertex cycle is a recorded mesh edge, walked in the direction its sign says *)
+Theorem cycle_steps_are_loop_edges edges first : forall loop, head_to_tail edges first loop = true ->
+  forall i e, nth_error loop i = Some e ->
+  exists a b, tail_vertex edges e = Some a /\ head_vertex edges e = Some b /\
+              nth_error (cell_cycle edges loop) i = Some (Some a) /\
+              (match nth_error loop (S i) with Some e' => tail_vertex edges e' | None => tail_vertex edges first end) = Some b.
+Proof. induction loop as [|x t IH]; intros H i e Hi; [destruct i; discriminate|]. cbn [head_to_tail] in H.
+  destruct (head_vertex edges x) as [h|] eqn:Hh; [|discriminate].
+  destruct (tail_vertex edges (match t with [] => first | e' :: _ => e' end)) as [tl|] eqn:Ht; [|discriminate].
+  apply andb_true_iff in H. destruct H as [Heq Hrest]. apply Z.eqb_eq in Heq. subst tl.
+  destruct i as [|i].
+  - cbn [nth_error] in Hi. inversion Hi; subst e. unfold head_vertex in Hh.
+    assert (Htx : exists a, tail_vertex edges x = Some a).
+    { unfold tail_vertex in Hh |- *. rewrite Z.abs_opp in Hh. destruct (find _ edges) as [[k [v1 v2]]|]; [eexists; reflexivity|discriminate]. }
+    destruct Htx as [a Ha]. exists a, h. split; [exact Ha|]. split; [exact Hh|]. split; [cbn [cell_cycle map nth_error]; rewrite Ha; reflexivity|].
+    destruct t as [|e' t']; cbn [nth_error]; exact Ht.
+  - cbn [nth_error] in Hi. destruct (IH Hrest i e Hi) as [a [b [H1 [H2 [H3 H4]]]]]. exists a, b. repeat split; try assumption. Qed.
